@@ -87,7 +87,8 @@ class SymH:
         return B(b, note=name)
 
     def const(self, x):
-        return x
+        """exact rational constant"""
+        return S(Q(core.const(x)))
 
     def assume(self, cond, text=""):
         if isinstance(cond, B):
@@ -283,7 +284,7 @@ class FloatH:
         return bool(self._get(name, False))
 
     def const(self, x):
-        return x
+        return float(x)
 
     def assume(self, cond, text=""):
         if not bool(cond):
